@@ -1248,11 +1248,14 @@ class Exec:
                 for g, x in alts:
                     if isinstance(x, Ptr) and x.obj is None:
                         s.oblig.append((gand(st.guard, g), 'call through NULL function pointer in %s' % f['name'], 'mem')); continue
-                    if not isinstance(x, FnPtr): raise Unsupported('indirect call through %r' % (x,))
+                    if not isinstance(x, FnPtr):
+                        # a data pointer / integer where a function pointer is expected: reported like a faulting access
+                        s.oblig.append((gand(st.guard, g), 'call through something that is not a function (%s) in %s' % (type(x).__name__, f['name']), 'mem')); continue
                     sub = base.clone(); sub.guard = gand(base.guard, g)
                     s._call1(f, sub, dst, x.name, args, depth)
                     acc = sub if acc is None else s.merge(acc, sub)
-                if acc is None: raise Unsupported('indirect call with no callable target')
+                if acc is None:
+                    st.guard = False; return          # every alternative faults: the path ends here (obligations recorded)
                 st.regs = acc.regs; st.mem = acc.mem; st.guard = acc.guard
                 return
         s._call1(f, st, dst, callee, args, depth)
